@@ -23,6 +23,9 @@ type Case struct {
 // classify walks the history with the model and labels it.
 func classify(c Case) (labels []string, nontrivial bool) {
 	md := model.New(c.Cfg.Table)
+	if c.Cfg.CustomCaches {
+		md.StmtCap, md.PortalCap = c.Cfg.StmtCap, c.Cfg.PortalCap
+	}
 	set := map[string]bool{}
 	errsInBatch, cleanRun := 0, 0
 	for _, m := range c.Msgs {
@@ -111,6 +114,9 @@ func classify(c Case) (labels []string, nontrivial bool) {
 	}
 	if c.Cfg.CustomCaches {
 		labels = append(labels, "user-supplied-caches")
+		if c.Cfg.StmtCap > 0 || c.Cfg.PortalCap > 0 {
+			labels = append(labels, "bounded-user-caches")
+		}
 	}
 	if len(c.Msgs) > 150 {
 		labels = append(labels, "long-lived-connection(>150 messages)")
@@ -160,6 +166,9 @@ func runPipelined(c Case, res core.Result) core.Result {
 		return res
 	}
 	md := model.New(c.Cfg.Table)
+	if c.Cfg.CustomCaches {
+		md.StmtCap, md.PortalCap = c.Cfg.StmtCap, c.Cfg.PortalCap
+	}
 	var exp []model.Exp
 	var evs []model.ExpEv
 	var all []byte
